@@ -629,36 +629,50 @@ func gen(r *h.Rand, tier string, emit func([]string)) {
 				ops = append(ops, "a cb "+strconv.Itoa(i+1)+" "+h.HexS(h.Pick(r, names))+" u")
 			}
 		}
-		orgs := []string{"0", "1", "2", "3"}
-		bkts := []string{"0", "1001", "1002", "1003", "1004", "1005", "1006", "1007", "1008"}
-		users := []string{"0", "2001", "2002", "2003", "2004"}
-		auths := []string{"0", "5001", "5002", "5003", "5004", "77"}
+		orgs := []string{"0", "1", "2", "1", "2", "3"}
+		bkts := []string{"0", "1001", "1002", "1003", "1004", "1005", "1003", "1004", "1005", "1006", "1007", "1008"}
+		users := []string{"0", "2001", "2002", "2001", "2002", "2003", "2004"}
+		auths := []string{"0", "5001", "5002", "5001", "5002", "5003", "5004", "77"}
 		optid := func(xs []string) string {
-			if r.Chance(0.35) {
+			if r.Chance(0.5) {
 				return "-"
 			}
 			return h.Pick(r, xs[1:])
 		}
 		perm := func() string {
-			a := h.Pick(r, []string{"read", "write", "write", "read", "Write"})
-			ty := h.Pick(r, rtypes)
+			a := h.Pick(r, []string{"read", "write", "write", "read", "write", "Write"})
+			ty := h.Pick(r, []string{"buckets", "buckets", "orgs", "orgs", "users", "users", "authorizations", "authorizations", "tasks", "instance"})
 			var id, org string
 			switch ty {
 			case "buckets":
-				id, org = optid(bkts), optid(orgs)
+				id, org = optid(bkts), optid(orgs[:3])
 			case "orgs":
-				id, org = optid(orgs), optid(orgs)
+				id, org = optid(orgs[:3]), h.Pick(r, []string{"-", "-", "-", "1", "2"})
 			case "users":
-				id, org = optid(users), "-"
+				id, org = optid(users[:4]), "-"
 			case "authorizations":
-				id, org = optid(auths), optid(orgs)
+				id, org = optid(auths[:4]), optid(orgs[:3])
 			default:
 				id, org = "-", optid(orgs)
 			}
-			if r.Chance(0.05) {
+			if r.Chance(0.03) {
 				id = "0"
 			}
 			return h.HexS(a) + ":" + h.HexS(ty) + ":" + id + ":" + org
+		}
+		admin := func() string {
+			var ps []string
+			for _, ty := range []string{"buckets", "orgs", "users", "authorizations"} {
+				for _, a := range []string{"read", "write"} {
+					if r.Chance(0.85) {
+						ps = append(ps, h.HexS(a)+":"+h.HexS(ty)+":-:-")
+					}
+				}
+			}
+			if len(ps) == 0 {
+				return "-"
+			}
+			return strings.Join(ps, ",")
 		}
 		perms := func(max int) string {
 			n := r.Intn(max + 1)
@@ -687,7 +701,14 @@ func gen(r *h.Rand, tier string, emit func([]string)) {
 			if r.Chance(0.1) {
 				active = "0"
 			}
-			caller = present + " " + active + " " + h.Pick(r, users) + " " + perms(6)
+			p := perms(6)
+			switch k := r.Intn(10); {
+			case k < 3:
+				p = admin()
+			case k < 4:
+				p = h.HexS(h.Pick(r, []string{"read", "write"})) + ":" + h.HexS("instance") + ":-:-"
+			}
+			caller = present + " " + active + " " + h.Pick(r, users) + " " + p
 		}
 		newCaller()
 		oname := func() string {
